@@ -9,7 +9,7 @@ import ast
 import inspect
 import textwrap
 
-from lib.hx import harness, pick, pickb, done, tier, PART, note
+from lib.hx import harness, pick, pickb, done, tier, PART, note, sample
 
 PROPERTY = "C14"
 LEVEL = "model_checking"
@@ -178,6 +178,7 @@ def check_signature(sigtext, overload):
         src = header + "@overload\ndef f%s: ...\n@overload\ndef f(zz: int, /) -> int: ...\ndef f(*args, **kwargs): pass\n" % sigtext
     else:
         src = header + "def f%s: pass\n" % sigtext
+    sample(source=src)
     s = model.System(OPTS)
     s.msg = lambda *a, **k: None
     b = s.systemBuilder(s)
